@@ -464,7 +464,7 @@ func setupStores(rc *RunCtx, g *Graph, cp *CopyParams) (*copyEnv, error) {
 	return &copyEnv{g: g, cp: cp, src: src, dst: dst}, nil
 }
 
-func (env *copyEnv) exec(rc *RunCtx, sc *Scenario, faults []FaultSpec, checks func(m *Monitor) []func(Event) *Verdict, cfg simrt.Config) *copyExec {
+func (env *copyEnv) exec(rc *RunCtx, faults []FaultSpec, checks func(m *Monitor) []func(Event) *Verdict, scratch bool) *copyExec {
 	ex := &copyExec{}
 	g, cp := env.g, env.cp
 	mon := NewMonitor(g)
@@ -529,7 +529,13 @@ func (env *copyEnv) exec(rc *RunCtx, sc *Scenario, faults []FaultSpec, checks fu
 			}
 		}
 	}
-	ex.res = simrt.Run(cfg, main)
+	if scratch {
+		ex.res = simrt.Run(rc.ScratchConfig(), main)
+		return ex
+	}
+	ex.res = simrt.Run(rc.NextConfig(), main)
+	rc.Done(ex.res)
+	rc.Logf("== %s returned err=%v", cp.API, ex.err)
 	return ex
 }
 
@@ -691,11 +697,9 @@ func (p *copyProp) Run(rc *RunCtx, sc *Scenario) *RunInfo {
 		return info
 	}
 	g := cp.Graph.Build()
-	cfg := sc.simConfig()
-
 	var v *Verdict
 	leak := rc.Bubble(func() {
-		v = p.runInBubble(rc, sc, &cp, g, cfg, info)
+		v = p.runInBubble(rc, sc, &cp, g, info)
 	})
 	if leak != "" {
 		info.Probes["goroutines_left_blocked"]++
@@ -708,7 +712,7 @@ func (p *copyProp) Run(rc *RunCtx, sc *Scenario) *RunInfo {
 	return info
 }
 
-func (p *copyProp) runInBubble(rc *RunCtx, sc *Scenario, cp *CopyParams, g *Graph, cfg simrt.Config, info *RunInfo) *Verdict {
+func (p *copyProp) runInBubble(rc *RunCtx, sc *Scenario, cp *CopyParams, g *Graph, info *RunInfo) *Verdict {
 	env, err := setupStores(rc, g, cp)
 	if err != nil {
 		// a generated scenario that the stores refuse at set-up is not a verdict on the property
@@ -765,7 +769,7 @@ func (p *copyProp) runInBubble(rc *RunCtx, sc *Scenario, cp *CopyParams, g *Grap
 
 	switch p.id {
 	case "C01", "C03":
-		ex := env.exec(rc, sc, nil, closure, cfg)
+		ex := env.exec(rc, nil, closure, false)
 		account(ex)
 		info.Outcome = string(ex.res.Outcome)
 		if v := outcomeCheck(ex, cp.API); v != nil {
@@ -840,13 +844,13 @@ func (p *copyProp) runInBubble(rc *RunCtx, sc *Scenario, cp *CopyParams, g *Grap
 		// separate pair of stores so that the faulty run starts from the same state.
 		faults := cp.Faults
 		if faults == nil {
-			rcA := &RunCtx{T: rc.T, DiskDir: filepath.Join(rc.DiskDir, "phaseA")}
+			rcA := &RunCtx{T: rc.T, DiskDir: filepath.Join(rc.DiskDir, "phaseA"), sc: sc}
 			envA, err := setupStores(rcA, g, cp)
 			if err != nil {
 				info.Outcome = "setup-skip"
 				return nil
 			}
-			exA := envA.exec(rcA, sc, nil, nil, cfg)
+			exA := envA.exec(rcA, nil, nil, true)
 			envA.src.close()
 			envA.dst.close()
 			if exA.res.Outcome != simrt.OK {
@@ -867,7 +871,7 @@ func (p *copyProp) runInBubble(rc *RunCtx, sc *Scenario, cp *CopyParams, g *Grap
 			sc.Params, _ = json.Marshal(cp)
 		}
 		info.CaseHash = simrt.Mix(info.CaseHash, hashJSON(faults))
-		ex := env.exec(rc, sc, faults, closure, cfg)
+		ex := env.exec(rc, faults, closure, false)
 		account(ex)
 		info.Outcome = string(ex.res.Outcome)
 		if v := outcomeCheck(ex, cp.API+" with faults"); v != nil {
@@ -908,16 +912,8 @@ func (p *copyProp) runInBubble(rc *RunCtx, sc *Scenario, cp *CopyParams, g *Grap
 			return nil
 		}
 		// retry without faults on the same destination
-		sc2 := *sc
-		cfg2 := cfg
-		cfg2.Seed = simrt.Mix(cfg.Seed, 2)
-		if cfg.Replay != nil {
-			cfg2.Replay = []uint64{}
-		}
-		ex2 := env.exec(rc, &sc2, nil, closure, cfg2)
-		info.Steps += ex2.res.Steps
-		info.SimTime += ex2.res.SimElapsed
-		info.Unknown += ex2.res.Unknown
+		ex2 := env.exec(rc, nil, closure, false)
+		account(ex2)
 		if v := outcomeCheck(ex2, "fault-free retry"); v != nil {
 			return v
 		}
@@ -954,7 +950,7 @@ func (p *copyProp) runInBubble(rc *RunCtx, sc *Scenario, cp *CopyParams, g *Grap
 			sc.Params, _ = json.Marshal(cp)
 		}
 		info.CaseHash = simrt.Mix(info.CaseHash, hashJSON(faults))
-		ex := env.exec(rc, sc, faults, nil, cfg)
+		ex := env.exec(rc, faults, nil, false)
 		account(ex)
 		info.Outcome = string(ex.res.Outcome)
 		if v := outcomeCheck(ex, cp.API); v != nil {
